@@ -132,7 +132,9 @@ Definition kinv (k : ck) : bool :=
   Bool.eqb (k_tab k) (k_new k && (cstage_eqb (k_stage k) F0 || cstage_eqb (k_stage k) FWon)) &&
   Bool.eqb (k_sig k) (cstage_eqb (k_stage k) FPub) &&
   implb (k_cancel_go k)
-        (cstage_eqb (k_stage k) FPub && match k_done k with Some c => negb (by_loop c) | None => false end).
+        (cstage_eqb (k_stage k) FPub && match k_done k with Some c => negb (by_loop c) | None => false end) &&
+  (* the watcher's compare-and-swap leaves done set, whoever won *)
+  implb (k_watched k) (negb (is_none (k_done k))).
 
 (* what the component assumes about its environment: a frame can only arrive once the stream
    exists (the server emits nothing for an id before it has seen new_stream) *)
